@@ -71,7 +71,14 @@ class ExcelType:
         return Number(float(Number.cast(self)) / ovalue)
 
     def __pow__(self, other):
-        return Number(Number.cast(self).value ** Number.cast(other).value)
+        try:
+            value = Number.cast(self).value ** Number.cast(other).value
+        except OverflowError:
+            raise xlerrors.NumExcelError('Result is too large.')
+        if isinstance(value, complex):
+            # Negative number raised to a fractional power.
+            raise xlerrors.NumExcelError('Result is not a real number.')
+        return Number(value)
 
     def __and__(self, other):
         # Highjacking bitwise "and" to implement logical "and"
